@@ -216,7 +216,7 @@ CHECKS["C16"] = {
             "fall-back), through Read buffer sequences and WriteTo. The trace must show the model's window length after every block "
             "and deliver exactly the content; tiny plans are decoded by TLC itself, which also validates the encoder.",
     "design_ref": "DESIGN.md section 5 (C16)",
-    "note": "The Apalache inductive check of the window invariant is not part of the registered commands.",
+    "note": "Supplement: Apalache discharges the inductive window invariant (ReaderWindowInd.tla) for every block-size sequence with the real constants.",
 }
 
 CHECKS["C18"] = {
